@@ -520,6 +520,15 @@ class Limbs:
             return self.fit(v, bits, why) if not signed else self._signed_fit(v, M, why)
         if op == ">>":
             s = self._const(R)
+            if signed and L.ub >= M:
+                # arithmetic shift of a two's-complement pattern held in an unsigned object of the same width: as a bit
+                # pattern the result is floor(x / 2^s) + sign (2^w - 2^(w-s)), sign = top bit of x
+                if L.ub >= (1 << bits) or s >= bits:
+                    raise Undecided("signed shift %s" % show(e)[:60])
+                lo_, sign = self.split(L, 1 << (bits - 1), "sign bit of %s" % show(e[2])[:40])
+                lo2, q = self.split(L, 1 << s, why)
+                b = self.bit_atom(sign)
+                return Val(padd(q.p, {(b,): (1 << bits) - (1 << (bits - s))}), (1 << bits) - 1)
             lo, q = self.split(L, 1 << s, why)
             return q
         if op == "&":
